@@ -189,7 +189,9 @@ CLAIMED = {
        "path_required_iff / path_required_agree, the canPropose sender/type table. Tie: every commit of random histories (valid + 9 kinds of offending by-reference proposals incl. colluding "
        "updates with colliding HPKE keys and Adds of key packages that are invalid by construction (hook Client::verif_generate_key_package_unchecked: default proposal / extension type "
        "listed in the capabilities, expired lifetime; also tried by value), by-value extras) is a `filter send` and a `filter receive` row (tree, ordered bundle -> applied set, path flag | error) replayed on the compiled model; "
-       "direct oracle: every receiver accepts and reports the committer's applied / unused proposals.",
+       "direct oracle: every receiver accepts and reports the committer's applied / unused proposals. MlsVerif.Props.C10Lifetime: the key-package lifetime window is exact and inclusive, "
+       "no clock = no verdict, a later receiver accepts until not_after; tie: directed scenario (key package with a chosen window, commit_time before / inside / after it, by value and by "
+       "reference, receivers with clocks before / inside / after / none) as `life` rows on the model + oracle.",
   note="Trusted: Lean kernel; hand-written filter model validated by the rows; payload validity (signature, lifetime, capabilities, identity verdict, PSK presence) is an attribute of the abstract "
        "proposal. Group-context-extension and re-init mixes are proved on the model but not generated. Fixed defects found here: F1, F16 (revert-all lost leaves).",
   ref="DESIGN.md §4 C10"),
